@@ -59,6 +59,9 @@ class SandboxCoverageTracer(SandboxBasicTracer):
         self.pc_covered = None
         self.missing = set()
         self.lines = set()
+        # Starting and finishing a measurement are not interleaved: a thread
+        # abandoned after a timeout may be finishing while the next execution starts
+        self._guard = threading.Lock()
 
     def as_filename(self, filename, code):
         # A student file that imports another student file re-enters this
@@ -74,6 +77,10 @@ class SandboxCoverageTracer(SandboxBasicTracer):
                 and self._owner == threading.get_ident())
 
     def __enter__(self):
+        with self._guard:
+            self._start_measuring()
+
+    def _start_measuring(self):
         if self._is_nested():
             self._depth += 1
             return
@@ -106,6 +113,10 @@ class SandboxCoverageTracer(SandboxBasicTracer):
         self.coverage.start()
 
     def __exit__(self, exc_type, exc_val, traceback):
+        with self._guard:
+            self._finish_measuring()
+
+    def _finish_measuring(self):
         if self._owner != threading.get_ident():
             # An abandoned thread unwinding at last: a later execution has
             # taken the measurement over
@@ -128,9 +139,11 @@ class SandboxCoverageTracer(SandboxBasicTracer):
 
         self.p.stop()
         self.original = None
-        # This very frame was entered while coverage was tracing: its local
-        # trace function would switch tracing off again when it returns
+        # This very frame (and __exit__, its caller) was entered while coverage
+        # was tracing: their local trace function would switch tracing off
+        # again when they return
         sys._getframe().f_trace = None
+        sys._getframe(1).f_trace = None
         sys.settrace(self.old_tracer)
         self.old_tracer = None
 
